@@ -77,6 +77,26 @@ def compile (p : Prov.P) : Except Err (Compiled V) := do
     pure { add := add, locs := locs }
 end
 
+/-- edges `(level, node, value)` crossed by the path of `args` starting at node `j` of level `i` -/
+def pathEdges {V : Type} : List (Level V) → Nat → List Nat → Nat → List (Nat × Nat × Nat)
+  | [], _, _, _ => []
+  | _ :: _, _, [], _ => []
+  | lv :: rest, j, a :: as, i => (i, j, a) :: pathEdges rest ((nodeAt lv j).ch a) as (i + 1)
+
+/-- `LocSpec` as a decidable check: for every binary assignment (in the diagram's unit order) and every
+row `r`, the path crosses exactly one edge of `locs[r]` when all literals of `r` hold, and none
+otherwise; moreover every location is an existing edge and no location is listed twice. -/
+def locSpecOk {V : Type} (p : Prov.P) (cmp : Compiled V) : Bool :=
+  let d := cmp.add
+  (cmp.locs.all (fun loc => loc.eraseDups.length == loc.length &&
+      loc.all (fun e => e.1 < d.levels.length && e.2.1 < (d.levels.getD e.1 []).length && e.2.2 < d.C))) &&
+  (allAssign d.units.length).all (fun args =>
+    let path := pathEdges d.levels d.root args 0
+    (List.range p.data.length).all (fun r =>
+      let present := (rowLits (p.data.getD r [])).all (fun uv => args.getD (d.units.idxOf uv.1) 0 == uv.2)
+      let crossed := (path.filter (fun e => (cmp.locs.getD r []).contains e)).length
+      crossed == (if present then 1 else 0)))
+
 /-! the oracle proper, on tallies -/
 
 variable {D : Dom}
@@ -125,6 +145,32 @@ def argmaxFirst (l : List Nat) : Nat :=
   let m := l.foldl max 0
   l.idxOf m
 
+/-- one summand of `compute_shapley_add`: the contribution of the tally `vec` with count `cnt` for the
+boundary pair `(t1, t2)` (the six skip conditions, `argmax`, weight `1 / C(n-1, size)`).
+`utilJ[c]` = utility of class `c` for the validation point, `nullJ` its null value. -/
+def term (n K c : Nat) (utilJ : List Rat) (nullJ : Rat) (t2 : Option Nat) (vec : List Nat) (cnt : Int) : Rat :=
+  let tt := vec.headD 0
+  let w := (vec.drop 1).take c
+  let wo := (vec.drop (1 + c)).take c
+  if cnt ≤ 0 || w.sum != K || (t2.isSome && wo.sum != K) || (t2.isNone && wo.sum ≥ K) then 0
+  else
+    let uw := utilJ.getD (argmaxFirst w) 0
+    let base := match t2 with
+      | some _ => utilJ.getD (argmaxFirst wo) 0
+      | none => nullJ
+    (1 / ((choose (n - 1) tt : Nat) : Rat)) * (cnt : Rat) * (uw - base)
+
+/-- all boundary pairs `(t1, t2)`, `t2` ranging over the rows and `None` -/
+def boundaryPairs (R : Nat) : List (Nat × Option Nat) :=
+  (List.range R).flatMap (fun t1 => ((List.range R).map some ++ [none]).map (fun t2 => (t1, t2)))
+
+/-- contribution of one validation point to unit `i` (before the final division) -/
+def pointUnit {D : Dom} (n K c R : Nat) (b : Built D) (utilJ : List Rat) (nullJ : Rat) (i : Nat) : Except Err Rat := do
+  let parts ← (boundaryPairs R).mapM (fun (tp : Nat × Option Nat) => do
+    let counts ← query c b R i (some tp.1) tp.2
+    pure (((D.vecs.zip counts).map (fun vc => term n K c utilJ nullJ tp.2 vc.1 vc.2)).sum))
+  pure parts.sum
+
 /-- `compute_shapley_add` (units = all units, world = ones).  `dist[r][j]`, `util[c][j]`, `nulls[j]`. -/
 def scores (p : Prov.P) (labels : List Nat) (dist : List (List Rat)) (util : List (List Rat)) (nulls : List Rat)
     (K c : Nat) : Except Err (List Rat) := do
@@ -132,26 +178,10 @@ def scores (p : Prov.P) (labels : List Nat) (dist : List (List Rat)) (util : Lis
   let R := p.data.length
   let nTest := nulls.length
   let D := Dom.tally (n - 1) K c
-  let bounds : List (Nat × Option Nat) := (List.range R).flatMap (fun t1 => ((List.range R).map some ++ [none]).map (fun t2 => (t1, t2)))
-  let mut imp : List Rat := List.replicate n 0
-  for j in List.range nTest do
+  let per ← (List.range nTest).mapM (fun j => do
     let b : Built D ← build D c p labels (dist.map (·.getD j 0))
-    for (t1, t2) in bounds do
-      for i in List.range n do
-        let counts ← query c b R i (some t1) t2
-        for (vec, cnt) in D.vecs.zip counts do
-          let tt := vec.headD 0
-          let w := (vec.drop 1).take c
-          let wo := (vec.drop (1 + c)).take c
-          if cnt ≤ 0 || w.sum != K || (t2.isSome && wo.sum != K) || (t2.isNone && wo.sum ≥ K) then continue
-          let lw := argmaxFirst w
-          let lwo := argmaxFirst wo
-          let uw := (util.getD lw []).getD j 0
-          let diff := match t2 with
-            | some _ => uw - (util.getD lwo []).getD j 0
-            | none => uw - nulls.getD j 0
-          imp := imp.modify i (· + (1 / ((choose (n - 1) tt : Nat) : Rat)) * (cnt : Rat) * diff)
-  pure (imp.map (· / (((n * nTest : Nat)) : Rat)))
+    (List.range n).mapM (pointUnit n K c R b (util.map (·.getD j 0)) (nulls.getD j 0)))
+  pure ((List.range n).map (fun i => (per.map (·.getD i 0)).sum / (((n * nTest : Nat)) : Rat)))
 
 /-! ## the specification side: the K-NN game by definition -/
 
